@@ -167,10 +167,10 @@ def gen_model(rng, size="small", feats=None):
         rng.shuffle(ids)
         k = 0
         for _ in range(rng.randint(1, 2)):
-            size_g = rng.randint(1, 3)
+            size_g = rng.randint(2, 3) if F.get("dgroups_focus") else rng.randint(1, 3)
             if k + size_g > n:
                 break
-            dgroups.append((sorted(ids[k:k + size_g]), rng.choice([0, 60, 300, 900])))
+            dgroups.append((sorted(ids[k:k + size_g]), rng.choice([600, 900, 1800] if F.get("dgroups_focus") else [0, 60, 300, 900])))
             k += size_g
     opts = {k: p(0.06) for k in ["dis_capacity", "dis_distance", "dis_max_duration", "dis_end_time", "dis_windows",
                                  "dis_max_stops", "dis_max_wait_stop", "dis_max_wait_vehicle", "dis_attributes",
@@ -330,6 +330,39 @@ def force_fixed_dependency(m, rng):
     m["opts"]["dis_windows"] = m["opts"]["dis_max_wait_stop"] = m["opts"]["dis_durations"] = False
     m["opts"]["dis_start_time"] = False
     m["features"]["windows"] = m["features"]["maxwait_stop"] = m["features"]["initial"] = True
+    return m
+
+
+def dgroup_focus(rng, size="small", vehicle_wait=False):
+    """models in which the time spent at a stop changes with its predecessor while arrivals stay the same: everything
+    at one place (zero travel), most own durations zero, long group durations, stops with two windows far apart and a
+    small max wait behind them"""
+    feats = {"capacity": False, "endtime": False, "maxdur": False, "maxstops": False, "maxdist": False, "attrs": False,
+             "windows": True, "maxwait_stop": not vehicle_wait, "maxwait_veh": vehicle_wait, "colocated": True, "precedence": False,
+             "dgroups": True, "dgroups_focus": True, "one_vehicle": True, "nonmetric": False, "no_startloc": False, "objx": False}
+    m = gen_model(rng, size, feats)
+    n = len(m["stops"])
+    N = len(m["dur"])
+    m["dur"] = [[0] * N for _ in range(N)]
+    for i, s_ in enumerate(m["stops"]):
+        if rng.random() < 0.7:
+            s_["duration"] = 0
+        if rng.random() < 0.5:
+            a = T0 + 60 * rng.randint(0, 10)
+            b = a + 60 * rng.choice([5, 15])
+            c = b + 60 * rng.choice([30, 45, 60])
+            s_["windows"] = [(a, b), (c, c + 3600)]
+            if not vehicle_wait:
+                s_["max_wait"] = rng.choice([0, 60, 300])
+        else:
+            s_["windows"] = []
+            s_["max_wait"] = None
+    for ve in m["vehicles"]:
+        ve["start_time"] = T0
+        if vehicle_wait:
+            ve["max_wait"] = rng.choice([60, 300, 900])
+    for k in ("dis_windows", "dis_max_wait_stop", "dis_max_wait_vehicle", "dis_durations", "dis_dgroups", "dis_start_time"):
+        m["opts"][k] = False
     return m
 
 
